@@ -172,6 +172,154 @@ pub fn book_examples() -> Vec<(String, String)> {
     out
 }
 
+/// Scalable shapes: small texts whose size grows linearly with N while the structure stays
+/// trivial - nesting and chaining of every bracketing / chaining construct of the grammar and
+/// the type checker. Each must be accepted, run, and return true; a compilation whose cost
+/// explodes with N shows as a hang of that scenario (totality of compilation on a fixed family).
+pub fn shape_texts(thorough: bool) -> Vec<(String, String)> {
+    let nest: &[usize] = if thorough { &[4, 12, 24, 40, 64] } else { &[4, 12, 24, 40] };
+    let chain: &[usize] = if thorough { &[8, 64, 256, 1000] } else { &[8, 64, 256] };
+    let mut out = vec![];
+    let mut add = |name: &str, n: usize, text: String| out.push((format!("fixed:ok-shape-{name}-{n}"), text));
+    for &n in nest {
+        add("nested-tuple-literal", n, format!("fn main()->bool{{ let v_t = {}1, 2{}; true }}", "(".repeat(n), ", 3)".repeat(n)));
+        add("nested-one-tuple", n, format!("fn main()->bool{{ let v_t = {}1{}; true }}", "(".repeat(n), ",)".repeat(n)));
+        add("nested-parentheses", n, format!("fn main()->bool{{ {}1{} == 1 }}", "(".repeat(n), ")".repeat(n)));
+        add("nested-array-literal", n, format!("fn main()->bool{{ let v_t = {}1{}; true }}", "[".repeat(n), "]".repeat(n)));
+        add("nested-calls", n, format!("fn v_id(v_x: int)->int{{ v_x }}\nfn main()->bool{{ {}1{} == 1 }}", "v_id(".repeat(n), ")".repeat(n)));
+        add("nested-if", n, format!("fn main()->bool{{ {}1{} == 1 }}", "if(true, ".repeat(n), ", 0)".repeat(n)));
+        add("nested-lambda-calls", n.min(24), format!("fn main()->bool{{ {}1{} == 1 }}", "((v_x: int)->{ ".repeat(n.min(24)), " })(1)".repeat(n.min(24))));
+        add("nested-generic-type", n.min(24), format!("fn v_f(v_x: {}int{})->int{{ 1 }}\nfn main()->bool{{ true }}", "Sequence<".repeat(n.min(24)), ">".repeat(n.min(24))));
+        add("nested-tuple-type", n.min(24), format!("fn v_f(v_x: {}int{})->int{{ 1 }}\nfn main()->bool{{ true }}", "(".repeat(n.min(24)), ", int)".repeat(n.min(24))));
+        add("nested-optional-value", n.min(24), format!("fn main()->bool{{ {}1{}.has_value() }}", "some(".repeat(n.min(24)), ")".repeat(n.min(24))));
+        add("struct-member-chain", n, format!("struct V_N(v_n: V_N, v_v: int)\nfn v_f(v_x: V_N)->int{{ v_x{}::v_v }}\nfn main()->bool{{ true }}", "::v_n".repeat(n)));
+        add("tuple-member-chain", n.min(24), format!("fn main()->bool{{ let v_t = {}1{}; v_t{} == 1 }}", "(".repeat(n.min(24)), ", 0)".repeat(n.min(24)), "::item0".repeat(n.min(24))));
+        add("index-chain", n.min(24), format!("fn main()->bool{{ let v_t = {}1{}; v_t{} == 1 }}", "[".repeat(n.min(24)), "]".repeat(n.min(24)), "[0]".repeat(n.min(24))));
+        add("nested-fstring", n.min(12), {
+            let m = n.min(12);
+            let mut t = "1".to_string();
+            for _ in 0..m {
+                t = format!("f\"{{{t}}}\".len()");
+            }
+            format!("fn main()->bool{{ {t} == 1 }}")
+        });
+    }
+    for &n in chain {
+        add("binary-operator-chain", n, format!("fn main()->bool{{ {}1 == {} }}", "1 + ".repeat(n), n + 1));
+        add("mixed-operator-chain", n, format!("fn main()->bool{{ {}1 > 0 }}", "1 + 2 * 3 - ".repeat(n)));
+        add("boolean-chain", n, format!("fn main()->bool{{ {}true }}", "true && ".repeat(n)));
+        add("unary-chain", n.min(256), format!("fn main()->bool{{ {}true }}", "!!".repeat(n.min(256))));
+        add("method-chain", n, format!("fn main()->bool{{ 1{} == {} }}", ".add(1)".repeat(n), n + 1));
+        add("let-chain", n, {
+            let mut t = String::from("fn main()->bool{ let v_x0 = 1; ");
+            for i in 1..=n {
+                t.push_str(&format!("let v_x{i} = v_x{} + 1; ", i - 1));
+            }
+            t.push_str(&format!("v_x{n} == {} }}", n + 1));
+            t
+        });
+        add("many-functions", n, {
+            let mut t = String::from("fn v_g0()->int{ 1 }\n");
+            for i in 1..=n {
+                t.push_str(&format!("fn v_g{i}()->int{{ v_g{}() + 1 }}\n", i - 1));
+            }
+            t.push_str(&format!("fn main()->bool{{ v_g{n}() == {} }}", n + 1));
+            t
+        });
+        add("many-overloads", n.min(64), {
+            let m = n.min(64);
+            let mut t = String::new();
+            for i in 0..m {
+                t.push_str(&format!("struct V_S{i}(v_a: int)\nfn v_o(v_x: V_S{i})->int{{ {i} }}\n"));
+            }
+            t.push_str(&format!("fn main()->bool{{ v_o(V_S{}(1)) == {} }}", m - 1, m - 1));
+            t
+        });
+        add("long-array-literal", n, format!("fn main()->bool{{ [{}0].len() == {} }}", "0, ".repeat(n), n + 1));
+        add("long-argument-tuple", n.min(64), format!("fn main()->bool{{ let v_t = ({}0); true }}", "0, ".repeat(n.min(64))));
+        add("long-string-literal", n, format!("fn main()->bool{{ \"{}\".len() == {} }}", "ab".repeat(n), 2 * n));
+    }
+    out.sort();
+    out.dedup();
+    out
+}
+
+/// every derived operation on every degenerate type (no acceptance is demanded - only that the
+/// compiler answers, and answers the same way every time)
+pub fn degenerate_texts() -> Vec<(String, String)> {
+    let types: &[(&str, &str)] = &[
+        ("unit", "()"),
+        ("one-tuple-of-unit", "((),)"),
+        ("unit-and-int", "((), 1)"),
+        ("empty-int-seq", "cast<Sequence<int>>([])"),
+        ("untyped-empty-seq", "[]"),
+        ("absent-int", "cast<Optional<int>>(none())"),
+        ("untyped-none", "none()"),
+        ("some-unit", "some(())"),
+        ("empty-struct", "V_E()"),
+        ("empty-set", "set<int>()"),
+        ("empty-mapping", "mapping<int>()"),
+        ("empty-stack", "stack()"),
+        ("seq-of-unit", "[(), ()]"),
+        ("nested-empty", "[cast<Sequence<int>>([])]"),
+    ];
+    let ops: &[(&str, &str)] = &[
+        ("eq", "{X} == {X}"),
+        ("ne", "{X} != {X}"),
+        ("cmp", "cmp({X}, {X}) == 0"),
+        ("lt", "{X} < {X}"),
+        ("ge", "{X} >= {X}"),
+        ("hash", "hash({X}) >= 0"),
+        ("to_str", "{X}.to_str().len() >= 0"),
+        ("min", "min({X}, {X}) == {X}"),
+        ("sort", "[{X}, {X}].sort().len() == 2"),
+        ("set-of", "set<int>().len() == 0 && [{X}].to_set().len() == 1"),
+        ("format", "format({X}, \"\").len() >= 0"),
+        ("display", "display({X}) == {X}"),
+        ("in-fstring", "f\"{{X}}\".len() >= 0"),
+    ];
+    let mut out = vec![];
+    for (tn, x) in types {
+        for (on, tpl) in ops {
+            out.push((format!("degenerate:{on}:{tn}"), format!("struct V_E()\nfn main()->bool{{ {} }}", tpl.replace("{X}", x))));
+        }
+    }
+    out
+}
+
+/// ill-typed uses of values whose generic type is only half bound: the error message has to
+/// print such a type
+pub fn halfbound_error_texts() -> Vec<(String, String)> {
+    let values: &[(&str, &str, &str)] = &[
+        ("union-unbound", "union V_M<T>(v_just: T, v_nothing: ())", "V_M::v_nothing(())"),
+        ("union2-half", "union V_M<T, U>(v_l: T, v_r: U)", "V_M::v_l(1)"),
+        ("struct-of-empty-seq", "struct V_G<T>(v_x: Sequence<T>)", "V_G([])"),
+        ("struct2-half", "struct V_G<T, U>(v_x: T, v_y: Optional<U>)", "V_G(1, none())"),
+        ("untyped-none", "", "none()"),
+        ("untyped-empty", "", "[]"),
+        ("tuple-with-none", "", "(1, none(), [])"),
+        ("empty-stack", "", "stack()"),
+        ("lambda-over-unbound", "union V_M<T>(v_just: T, v_nothing: ())", "()->{ V_M::v_nothing(()) }"),
+    ];
+    let misuses: &[(&str, &str)] = &[
+        ("as-int", "let v_c: int = v_a;"),
+        ("called", "let v_c = v_a(1);"),
+        ("mixed-array", "let v_c = [v_a, 1];"),
+        ("no-such-member", "let v_c = v_a::v_zzz;"),
+        ("returned-as-int", "fn v_f()->int{ v_a }"),
+        ("added", "let v_c = v_a + 1;"),
+        ("no-such-method", "let v_c = v_a.v_nothing_like_this();"),
+        ("as-str-arg", "let v_c = len(\"\" + v_a);"),
+    ];
+    let mut out = vec![];
+    for (vn, decl, value) in values {
+        for (mn, misuse) in misuses {
+            out.push((format!("halfbound:{vn}:{mn}"), format!("{decl}\nlet v_a = {value};\n{misuse}\nfn main()->bool{{ true }}")));
+        }
+    }
+    out
+}
+
 pub fn make(spec: &JobSpec, _ex: &mut Executor, out: &mut JobResult) -> Option<Box<dyn Job>> {
     match spec.kind.as_str() {
         "text" | "single" => {
